@@ -709,13 +709,25 @@ impl TryFrom<&mut Peekable<Lexer>> for ParserNode {
                                     lex.raw_token,
                                 ));
                             }
-                            PseudoType::Bltz | PseudoType::Bgtz => {
+                            PseudoType::Bltz => {
                                 let rs1 = lex.get_reg()?;
                                 let label = lex.get_label()?;
                                 return Ok(ParserNode::new_branch(
                                     With::new(BranchType::Blt, next_node.clone()),
                                     rs1,
                                     With::new(Register::X0, next_node.clone()),
+                                    label,
+                                    lex.raw_token,
+                                ));
+                            }
+                            PseudoType::Bgtz => {
+                                // bgtz rs, label == blt x0, rs, label
+                                let rs1 = lex.get_reg()?;
+                                let label = lex.get_label()?;
+                                return Ok(ParserNode::new_branch(
+                                    With::new(BranchType::Blt, next_node.clone()),
+                                    With::new(Register::X0, next_node.clone()),
+                                    rs1,
                                     label,
                                     lex.raw_token,
                                 ));
@@ -773,13 +785,25 @@ impl TryFrom<&mut Peekable<Lexer>> for ParserNode {
                                     lex.raw_token,
                                 ));
                             }
-                            PseudoType::Bgez | PseudoType::Blez => {
+                            PseudoType::Bgez => {
                                 let rs1 = lex.get_reg()?;
                                 let label = lex.get_label()?;
                                 return Ok(ParserNode::new_branch(
                                     With::new(BranchType::Bge, next_node.clone()),
                                     rs1,
                                     With::new(Register::X0, next_node.clone()),
+                                    label,
+                                    lex.raw_token,
+                                ));
+                            }
+                            PseudoType::Blez => {
+                                // blez rs, label == bge x0, rs, label
+                                let rs1 = lex.get_reg()?;
+                                let label = lex.get_label()?;
+                                return Ok(ParserNode::new_branch(
+                                    With::new(BranchType::Bge, next_node.clone()),
+                                    With::new(Register::X0, next_node.clone()),
+                                    rs1,
                                     label,
                                     lex.raw_token,
                                 ));
